@@ -6,6 +6,7 @@
 #include <cstdint>
 #include <cstdlib>
 #include <cstring>
+#include <malloc.h>
 
 extern "C" {
 void* __real_malloc(size_t);
@@ -25,6 +26,19 @@ struct AllocTrack {
   // harness decides it - -1 leaves whatever the allocator returns, 0..255 fills the block with that byte (calloc stays zero)
   volatile int poison = -1;
   void fresh(void* p, size_t s) { if (poison >= 0 && p && s) memset(p, poison, s); }
+  // address of malloc / calloc / realloc blocks modulo 64 (malloc only promises 16): -1 leaves the allocator alone, 0/16/32/48 makes
+  // every such block start at that residue, its END still being the end of the underlying allocation (so overruns stay visible)
+  volatile int residue = -1;
+  struct Shift { void* p; void* base; };
+  Shift shifts[4096]; int nshift = 0;
+  void* shifted_alloc(size_t s) {
+    void* b = 0;
+    if (__real_posix_memalign(&b, 64, (size_t)residue + (s ? s : 1))) return 0;
+    void* p = (uint8_t*)b + residue;
+    if (nshift < 4096) { shifts[nshift].p = p; shifts[nshift].base = b; nshift++; }
+    return p;
+  }
+  void* shifted_base(void* p) { for (int i = nshift - 1; i >= 0; --i) if (shifts[i].p == p) { void* b = shifts[i].base; shifts[i] = shifts[nshift - 1]; nshift--; return b; } return 0; }
   int n = 0;
   long allocs = 0, frees = 0, unknown_frees = 0;
   // arena mode (Engine B): page-granular blocks carved from one mapping so that they can be sealed
@@ -57,7 +71,7 @@ extern "C" {
 void* __wrap_malloc(size_t s) {
   vf::AllocTrack& t = vf::alloc_track();
   if (t.on && t.arena) { void* p = t.arena_alloc(16, s); if (p) t.add(p, s); t.fresh(p, s); return p; }
-  void* p = __real_malloc(s);
+  void* p = (t.residue >= 0 && t.nshift < 4096) ? t.shifted_alloc(s) : __real_malloc(s);
   if (t.on && p) t.add(p, s);
   t.fresh(p, s);
   return p;
@@ -66,6 +80,7 @@ void __wrap_free(void* p) {
   vf::AllocTrack& t = vf::alloc_track();
   if (t.on) t.del(p);
   if (t.in_arena(p)) return;
+  if (t.nshift) { void* b = t.shifted_base(p); if (b) { __real_free(b); return; } }
   __real_free(p);
 }
 void* __wrap_aligned_alloc(size_t a, size_t s) {
@@ -79,7 +94,9 @@ void* __wrap_aligned_alloc(size_t a, size_t s) {
 void* __wrap_calloc(size_t n, size_t s) {
   vf::AllocTrack& t = vf::alloc_track();
   if (t.on && t.arena) { void* p = t.arena_alloc(16, n * s); if (p) { memset(p, 0, n * s); t.add(p, n * s); } return p; }
-  void* p = __real_calloc(n, s);
+  void* p;
+  if (t.residue >= 0 && t.nshift < 4096) { p = t.shifted_alloc(n * s); if (p) memset(p, 0, n * s); }
+  else p = __real_calloc(n, s);
   if (t.on && p) t.add(p, n * s);
   return p;
 }
@@ -91,6 +108,16 @@ void* __wrap_realloc(void* q, size_t s) {
     if (p && q) { size_t old = 0; for (int i = t.n - 1; i >= 0; --i) if (t.rec[i].p == q) { old = t.rec[i].size; break; } memcpy(p, q, old < s ? old : s); }
     if (t.on) { t.del(q); if (p) t.add(p, s); }
     return p;
+  }
+  if (t.residue >= 0 || (q && t.nshift)) {
+    void* b = q ? t.shifted_base(q) : 0;
+    if (q && !b && t.residue < 0) { void* p2 = __real_realloc(q, s); if (t.on) { t.del(q); if (p2) t.add(p2, s); } return p2; }
+    // emulate: new block, copy (old size unknown for foreign blocks: only blocks made here are resized exactly)
+    void* p2 = (t.residue >= 0 && t.nshift < 4096) ? t.shifted_alloc(s) : __real_malloc(s);
+    if (p2 && q) { size_t old = b ? malloc_usable_size(b) - (size_t)((uint8_t*)q - (uint8_t*)b) : malloc_usable_size(q); memcpy(p2, q, old < s ? old : s); }
+    if (q) { if (b) __real_free(b); else __real_free(q); }
+    if (t.on) { t.del(q); if (p2) t.add(p2, s); }
+    return p2;
   }
   void* p = __real_realloc(q, s);
   if (t.on) { t.del(q); if (p) t.add(p, s); }
